@@ -4,7 +4,8 @@
 tier="${1:-quick}"
 ROOT=$(cd "$(dirname "$0")/.." && pwd)
 REPO="${VERIF_REPO:-/repo}"
-out="$ROOT/seeded/RESULTS.md"
+# SEED_RE: only seeds whose id matches this extended regular expression; SEED_TAG: suffix of the result file
+out="$ROOT/seeded/RESULTS${SEED_TAG:-}.md"
 {
 echo "# Seeded changes vs checks ($tier tier, repository at $(git -C "$REPO" rev-parse --short HEAD), $(date -u +%FT%TZ))"
 echo
@@ -13,6 +14,7 @@ echo "|------|----------|-----------|-------------------------------|"
 } > $out
 for d in "$ROOT"/seeded/C*-[mr]*/; do
   id=$(basename $d); prop=${id%%-*}
+  echo "$id" | grep -qE "${SEED_RE:-.}" || continue
   props="$prop $(cat $d/also 2>/dev/null)"
   for p in $props; do
     line=$("$ROOT/tools/try_patch.sh" $d/patch.diff $tier $p 2>&1 | grep "^$p exit" | head -1)
